@@ -94,6 +94,35 @@ def coexisting_results(res):
         res.violation('h10:coexisting-results', 'results obtained from Connection.execute are independent cursors', {'statements': 3}, obs, exp)
 
 
+def description_protocol(res):
+    """the description is a sequence of 7-item sequences for every statement kind (plain, aggregate, wildcard, subquery, PIVOT BY,
+    BALANCES / JOURNAL on a ledger): it has a length, can be indexed and sliced, and can be read any number of times"""
+    conn = make_conn(t=([('x', int), ('k', str), ('y', int)], [(i, 'ab'[i % 2], i % 3) for i in range(6)]))
+    stmts = [(conn, 'SELECT x, x + 1 AS y FROM #t'), (conn, 'SELECT k, count(*) AS n FROM #t GROUP BY k'), (conn, 'SELECT * FROM #t'), (conn, 'SELECT * FROM (SELECT x, k FROM #t)'),
+             (conn, 'SELECT k, y, sum(x) AS s FROM #t GROUP BY k, y PIVOT BY k, y'), (conn, 'SELECT k, y, sum(x), count(*) FROM #t GROUP BY 1, 2 PIVOT BY 1, 2'), (conn, 'SELECT x FROM #t WHERE x > 100')]
+    try:
+        from harness import ledger
+        lc = ledger.connect()
+        stmts += [(lc, 'BALANCES'), (lc, "JOURNAL 'Assets'"), (lc, 'SELECT account, year, sum(number) GROUP BY 1, 2 PIVOT BY 1, 2')]
+    except Exception:
+        pass
+    for c, q in stmts:
+        res.case(('description-protocol', q))
+        try:
+            cur = c.execute(q)
+            d = cur.description
+            rows = cur.fetchall()
+            n = len(d)
+            once, twice = [tuple(x) for x in d], [tuple(x) for x in d]
+            ok = n > 0 and once == twice and len(once) == n and all(len(x) == 7 for x in once) and tuple(d[0]) == once[0] and tuple(d[n - 1]) == once[-1] \
+                and [tuple(x) for x in d[:1]] == once[:1] and all(len(r) == n for r in rows) and all(isinstance(x[0], str) for x in once)
+            obs = (n, once[:2], twice[:2])
+        except Exception as e:  # noqa
+            ok, obs = False, f'{type(e).__name__}: {e}'
+        if not ok:
+            res.violation('h10:description-protocol:' + q[:50], 'description is a sequence of 7-item sequences, one per result column, readable any number of times', {'query': q}, obs, 'a sequence')
+
+
 def _one(item):
     size, hist = item
     try:
@@ -118,6 +147,7 @@ def run(tier, seed):
         hist = tuple(rng.choice(OPS) for _ in range(rng.randint(4, 12)))
         items.append((rng.randint(0, 6), hist))
     coexisting_results(res)
+    description_protocol(res)
     for (size, hist), bad in zip(items, pmap(_one, items)):
         res.case((size, hist), {'result_size': size, 'history': [list(map(str, h)) for h in hist]})
         if bad:
